@@ -1,6 +1,4 @@
-import Bee2V.C11.LemmasMem
-import Bee2V.C11.Prog
-import Bee2V.C11.Der
+import Bee2V.C11.Lemmas
 import Bee2V.Gen.C11List
 /-
 C11 — property theorems.  Every address is a universally quantified natural number: the
@@ -57,15 +55,6 @@ example : memJoinBranch 2 3 4 4 4 = 5 ∧
   rw [memJoin_eq_spec]; decide
 
 /-! ### high-level functions: orderings of reads and writes, abstract core -/
-
-/-- reading a region that a `memMove` does not touch -/
-theorem read_memMove_disj (m : Mem) (d s n a k : Nat) (h : disj2 d n a k = true) :
-    read (memMove m d s n) a k = read m a k := by
-  rw [disj2_iff] at h
-  rw [read_eq_iff]
-  intro i hi
-  have : ¬ (d ≤ a + i ∧ a + i < d + n) := by omega
-  simp only [memMove, this, if_false]
 
 /-- belt.h beltCBCEncr/Decr, beltCFBEncr/Decr, beltCTR, beltBDEEncr/Decr ("Буферы могут пересекаться"):
     for every placement of dest, src, key, iv the core receives the OLD key, iv and src, and dest
@@ -195,25 +184,6 @@ theorem beltUnwrap_overlap (c : Core) (idx idv : String) (m : Mem) (dest src1 co
   · simp [(memMove_overlap m dest src1 count1).1]
   · rfl
 
-/-- the buffer `beltKWPWrap` hands to the core when header = 0 -/
-theorem read_move_zero (m : Mem) (dest src count : Nat) :
-    read (memSet (memMove m dest src count) (dest + count) 0 16) dest (count + 16) =
-      read m src count ++ List.replicate 16 0 := by
-  apply List.ext_getElem
-  · simp [read_length]
-  · intro i h1 h2
-    simp [read_length] at h1
-    simp only [read_getElem, memSet, memMove]
-    by_cases hi : i < count
-    · have a : ¬ (dest + count ≤ dest + i ∧ dest + i < dest + count + 16) := by omega
-      have b : dest ≤ dest + i ∧ dest + i < dest + count := by omega
-      rw [List.getElem_append_left (by simpa [read_length] using hi)]
-      simp only [a, b, and_self, if_true, if_false, read_getElem]
-      congr 1; omega
-    · have a : dest + count ≤ dest + i ∧ dest + i < dest + count + 16 := by omega
-      rw [List.getElem_append_right (by simpa [read_length] using hi)]
-      simp only [a, and_self, if_true, List.getElem_replicate]
-
 /-- belt.h beltKWPWrap ("Буферы могут пересекаться"; the code additionally rejects header ∩ src with
     ERR_BAD_INPUT): with a header, for every placement of dest, src, header, key the core receives
     old src ‖ old header — through `memJoin`, all branches (code as fixed in /repo by 7d517b5). -/
@@ -281,31 +251,6 @@ theorem stepG_overlap (c : Core) (id : String) (m : Mem) (mac n state keep mOff 
 
 /-! ### mem.h memXor / memXor2 (dest either coincides with or is disjoint from each source) -/
 
-theorem memXor2_apply : ∀ (n : Nat) (m : Mem) (d s x : Nat), (s = d ∨ s + n ≤ d ∨ d + n ≤ s) →
-    memXor2 m d s n x = if d ≤ x ∧ x < d + n then m x ^^^ m (s + (x - d)) else m x := by
-  intro n
-  induction n with
-  | zero =>
-    intro m d s x _
-    have : ¬ (d ≤ x ∧ x < d + 0) := by omega
-    simp only [memXor2, this, if_false]
-  | succ n ih =>
-    intro m d s x h
-    rw [memXor2, ih _ _ _ _ (by omega)]
-    simp only [set1]
-    by_cases hx : x = d
-    · subst hx
-      have a : ¬ (x + 1 ≤ x ∧ x < x + 1 + n) := by omega
-      have b : x ≤ x ∧ x < x + (n + 1) := by omega
-      simp [a, b]
-    · by_cases hr : d + 1 ≤ x ∧ x < d + 1 + n
-      · have b : d ≤ x ∧ x < d + (n + 1) := by omega
-        have e : ¬ (s + 1 + (x - (d + 1)) = d) := by omega
-        simp only [hr, b, hx, e, and_self, if_true, if_false]
-        congr 2; omega
-      · have b : ¬ (d ≤ x ∧ x < d + (n + 1)) := by omega
-        simp only [hr, b, hx, if_false]
-
 /-- mem.h `memXor2` ("dest либо не пересекается, либо совпадает с буфером src") -/
 theorem memXor2_sameOrDisjoint (m : Mem) (d s n : Nat) (h : sameOrDisj s d n = true) :
     read (memXor2 m d s n) d n = xorBytes (read m d n) (read m s n) := by
@@ -339,33 +284,6 @@ theorem memXor2_sameOrDisjoint (m : Mem) (d s n : Nat) (h : sameOrDisj s d n = t
 
 example : sameOrDisj 3 3 8 = true ∧ sameOrDisj 0 8 8 = true := by decide
 
-theorem memXor_apply : ∀ (n : Nat) (m : Mem) (d s1 s2 x : Nat),
-    (s1 = d ∨ s1 + n ≤ d ∨ d + n ≤ s1) → (s2 = d ∨ s2 + n ≤ d ∨ d + n ≤ s2) →
-    memXor m d s1 s2 n x = if d ≤ x ∧ x < d + n then m (s1 + (x - d)) ^^^ m (s2 + (x - d)) else m x := by
-  intro n
-  induction n with
-  | zero =>
-    intro m d s1 s2 x _ _
-    have : ¬ (d ≤ x ∧ x < d + 0) := by omega
-    simp only [memXor, this, if_false]
-  | succ n ih =>
-    intro m d s1 s2 x h1 h2
-    rw [memXor, ih _ _ _ _ _ (by omega) (by omega)]
-    simp only [set1]
-    by_cases hx : x = d
-    · subst hx
-      have a : ¬ (x + 1 ≤ x ∧ x < x + 1 + n) := by omega
-      have b : x ≤ x ∧ x < x + (n + 1) := by omega
-      simp [a, b]
-    · by_cases hr : d + 1 ≤ x ∧ x < d + 1 + n
-      · have b : d ≤ x ∧ x < d + (n + 1) := by omega
-        have e1 : ¬ (s1 + 1 + (x - (d + 1)) = d) := by omega
-        have e2 : ¬ (s2 + 1 + (x - (d + 1)) = d) := by omega
-        simp only [hr, b, e1, e2, and_self, if_true, if_false]
-        congr 2 <;> omega
-      · have b : ¬ (d ≤ x ∧ x < d + (n + 1)) := by omega
-        simp only [hr, b, hx, if_false]
-
 /-- mem.h `memXor` ("dest либо не пересекается, либо совпадает с каждым из буферов src1, src2"):
     every octet of dest is the XOR of the OLD source octets -/
 theorem memXor_sameOrDisjoint (m : Mem) (d s1 s2 n : Nat)
@@ -380,19 +298,6 @@ theorem memXor_sameOrDisjoint (m : Mem) (d s1 s2 n : Nat)
   congr 2 <;> omega
 
 /-! ### der.h: `val` (and `len`) may overlap `der` -/
-
-theorem read_write_disj (m : Mem) (a : Nat) (bs : Bytes) (b k : Nat) (h : disj2 a bs.length b k = true) :
-    read (write m a bs) b k = read m b k := by
-  rw [disj2_iff] at h
-  rw [read_eq_iff]
-  intro i hi
-  have : ¬ (a ≤ b + i ∧ b + i < a + bs.length) := by omega
-  simp only [write, this, if_false]
-
-theorem natLE_length (n v : Nat) : (Bee2V.Proto.natLE n v).length = n := by
-  induction n generalizing v with
-  | zero => rfl
-  | succ n ih => simp [Bee2V.Proto.natLE, ih]
 
 /-- der.h `derEnc` ("Буферы der и val могут пересекаться"), also derTPSTREnc / derOCTEnc which call it:
     for every placement of val against der and every TL prefix the code is `TL ‖ old val`. -/
